@@ -120,6 +120,7 @@ structure ImplLine where
   cl : List Nat
   view : View
   rbs : List (Nat × Nat)        -- read-buffer size per session
+  awaiting : List Nat           -- sessions in state I (CONNECT accepted, identity incomplete)
   sessions : List Nat
   unknownSessions : Bool
   regs : List (Option Nat)
@@ -149,8 +150,11 @@ def parseImpl (line : String) : Option ImplLine := do
       | some a, some b => some (a, b)
       | _, _ => none
     | _ => none
+  let awaiting := (ssRaw.filter (!·.startsWith "unknown")).filterMap fun e => match e.splitOn "." with
+    | [c, "I", _, _] => c.toNat?
+    | _ => none
   let fd ← (← field toks "fd").toNat?
-  pure { rx := rx, cl := cl, view := ss, rbs := rbs, sessions := ss.map (·.client), unknownSessions := unknown, regs := regs, fd := fd }
+  pure { rx := rx, cl := cl, view := ss, rbs := rbs, awaiting := awaiting, sessions := ss.map (·.client), unknownSessions := unknown, regs := regs, fd := fd }
 
 /-! ### the machine -/
 
@@ -168,6 +172,7 @@ structure St where
   heldModel : List (Nat × Bytes) := []  -- model: bytes already written towards a stalled client (it has not read them yet)
   judged : List Nat := []             -- stalled clients that were bridged when they stalled (the monitor follows them)
   owed : List (Nat × Bytes) := []     -- per judged client: what its partner has sent since, in order
+  implAwaiting : List (Nat × Nat) := []  -- previous line: sessions awaiting their identity, with their read-buffer size
   deriving Inhabited
 
 inductive Op where
@@ -220,7 +225,7 @@ def afterFirstLine (bs : Bytes) : Bytes := (bs.dropWhile (· != 10)).drop 1
 
 /-- C25 clauses, judged on the implementation's own lines -/
 def judgeC25 (before : View) (pending : List (Nat × Bytes)) (judged : List Nat) (owed : List (Nat × Bytes))
-    (op : Op) (l : ImplLine) : String :=
+    (awaitingBefore : List (Nat × Nat)) (op : Op) (l : ImplLine) : String :=
   let o : Obs String := { rx := l.rx, closed := l.cl }
   if !decide (ClaimUnique l.view) then "viol:claim-unique:a peer is claimed by two connectors at once"
   else if !decide (Symmetric l.view) then "viol:pairing-symmetric:the pairing table is not symmetric"
@@ -237,6 +242,9 @@ def judgeC25 (before : View) (pending : List (Nat × Bytes)) (judged : List Nat)
       if before.isBridged k && (match before.partnerOf k with | some t => judged.contains t | none => false) then
         if decide (Held o) then "ok"
         else "viol:delivery:bytes for a partner that is not reading were delivered elsewhere or somebody was disconnected"
+      else if (awaitingBefore.lookup k).isSome && l.awaiting.contains k &&
+          !decide (IdentityHeld ((awaitingBefore.lookup k).getD 0) p.length ((l.rbs.lookup k).getD 0) (l.rx.lookup k).isSome) then
+        "viol:delivery:bytes of a connector that is still completing its identity were consumed or answered by the relay"
       else if !decide (Delivery before k (if p.isEmpty then none else some (showBytes p)) o) then
         "viol:delivery:bytes of a bridged client did not reach exactly its partner, whole and in order"
       else if !decide (Isolation before l.view k o) then
@@ -330,7 +338,7 @@ def step (which : Which) (st : St) (tok : List String) (_line : String) (impl : 
           | _ => st.implConnected
         let conn := conn0.filter fun c => !l.cl.contains c
         let verdict := match which with
-          | .c25 => judgeC25 st.implView st.pending st.judged st.owed op l
+          | .c25 => judgeC25 st.implView st.pending st.judged st.owed st.implAwaiting op l
           | .c26 => judgeC26 conn l
         -- slow readers the monitor follows: bridged when they stalled, both ends still connected
         let judged0 := match op with
@@ -349,7 +357,8 @@ def step (which : Which) (st : St) (tok : List String) (_line : String) (impl : 
           | _ => st.owed
         let owed := owed0.filter fun e => judged.contains e.1
         ({ st1 with implView := l.view, implConnected := conn, pending := updatePending st.pending op l,
-                    judged := judged, owed := owed }, model, verdict)
+                    judged := judged, owed := owed,
+                    implAwaiting := l.awaiting.map fun c => (c, (l.rbs.lookup c).getD 0) }, model, verdict)
 
 def machine (which : Which) : Machine St := { init := {}, step := step which }
 
